@@ -63,6 +63,12 @@ def check(ctx):
     wd = writers_of(ex, ("a", wr, "data"))
     ctx.check(len(wd) == 1 and wd[0].rhs == ("arg", w.bodyid), "C16.write-data", wd[0].fact.site if wd else comp.site, "Stack.write_port.data", found="; ".join(tstr(x.rhs) for x in wd), required="the written element is the argument")
     sole_writer_in_body(ctx, "C16.write-enable", comp, ex, ("a", wr, "en"), w, "memory write enable pulsed only while write runs", rhs_pred=const_pred(1), construct="Stack.write_port.en")
+    # the read port follows the top of the stack in EVERY cycle (a pop changes next_level without any other method running): its
+    # enable keeps its initial value 1 - no writer, combinational or registered - or is driven with the constant 1
+    ens = writers_of(ex, ("a", rd, "en"), "any")
+    ok_en = all(w.rhs in (("c", 1), ("c", True), ("call", ("n", "C"), (("c", 1),), ())) and w.guard is True for w in ens)
+    ctx.check(ok_en, "C16.read-port-always-enabled", ens[0].fact.site if ens else comp.site, "Stack.read_port.en", found="; ".join(f"{tstr(w.fact.domain)} += en.eq({tstr(w.rhs)[:80]})" for w in ens) or "never assigned (initial value 1)",
+              required="the read port is enabled in every cycle (the head must follow every change of the level, also a read with nothing else running)")
     hs = writers_of(ex, pat("self.head"))
     ctx.check(len(hs) == 1 and hs[0].guard is True and hs[0].rhs == ("a", rd, "data"), "C16.head", hs[0].fact.site if hs else comp.site, "Stack.head", found="; ".join(tstr(x.rhs) for x in hs), required="head is the read port's data")
     for b in (r, p):
